@@ -113,11 +113,11 @@ UNIT = {
  'native': {'tests': [
     {'name': 'prefixed_file_reads_identically', 'code': '../xrefchain/e2e_docs_bounded.rs', 'place': 'pdf/tests/verif_e2e_c17.rs', 'filter': 'c17_',
      'fn': 'Storage::scan', 'props': ['C17'], 'tier': 'quick', 'timeout': 900,
-     'bound': 'generated files (hand-written bytes, no crate writer): base body of 6 objects (catalog, page tree, page, content stream, integer, string) + 0..=2 incremental updates of kind {Redef 3 4 5 6 | Free5 (free entry gen 1) + 6 | Reuse5 (gen 1, after Free5) | AddGap (new 9, 11; 7, 8, 10 undefined) | Pack (5, 6 inside a new object stream, xref-stream sections only)}: all 18 well-formed kind sequences; every section in one of 3 formats {classic | xref stream /W [1 2 1] one /Index run per entry | /W [1 3 2] maximal runs} (+ base variants objects 5, 6 in an object stream, /Index omitted): 654 files x 7 prefixes {empty, LF, "garbage" CR LF, 1 byte, 1000 bytes of % comment lines, 28 bytes holding "%PDF" without dash and "%PD F-", 1019 bytes (binary, "startxref 7", "%PDF 1.4"; the header marker ends at byte 1024, the bound of xrefchain locate_start_offset/header_first_in_window)} = 4578 loads compared with the unprefixed load, 1044 update+save+reload runs. Files with an undefined number below /Size are loaded and compared but not saved (candidate finding units/updater/findings/save_fails_on_undefined_entries.md).',
+     'bound': 'generated files (hand-written bytes, no crate writer): base body of 6 objects (catalog, page tree, page, content stream, integer, string) + 0..=2 incremental updates of kind {Redef 3 4 5 6 | Free5 (free entry gen 1) + 6 | Reuse5 (gen 1, after Free5) | AddGap (new 9, 11; 7, 8, 10 undefined) | Pack (5, 6 inside a new object stream, xref-stream sections only)}: all 18 well-formed kind sequences; every section in one of 3 formats {classic | xref stream /W [1 2 1] one /Index run per entry | /W [1 3 2] maximal runs} (+ base variants objects 5, 6 in an object stream, /Index omitted): 654 files x 7 prefixes {empty, LF, "garbage" CR LF, 1 byte, 1000 bytes of % comment lines, 28 bytes holding "%PDF" without dash and "%PD F-", 1019 bytes (binary, "startxref 7", "%PDF 1.4"; the header marker ends at byte 1024, the bound of xrefchain locate_start_offset/header_first_in_window)} = 4578 loads compared with the unprefixed load, 1962 update+save+reload runs (files with undefined numbers below /Size included).',
      'contract': 'for every file f and prefix p: load(p ++ f) succeeds and agrees with load(f) on: resolve of every object number 0 ..= /Size + 2 (value, '
                  'stream dictionary, raw and decoded stream data, or missing), page count, page 0 (reference, /Rotate, /MediaBox, parsed operations), the typed '
                  'trailer (/Size /Prev /Root /ID), and the items of File::scan (objects and trailers; errors compared as errors). For about every third (file, prefix) pair and '
-                 'every unprefixed file without undefined numbers: update of the newest scalar object + create + Storage::save + reload: the previous bytes are a '
+                 'every unprefixed file: update of the newest scalar object + create + Storage::save + reload: the previous bytes are a '
                  'prefix of the output, the updated id (the id handed back is the id given) and the created id read the written values, every other object, the page count and page 0 read as before.'},
  ]},
 }
